@@ -8,6 +8,7 @@ func init() {
 		"exponential histogram points: scale > 8 is expected at schema 8 with neighbours merged; scale < -4 has no Prometheus schema and nothing is asserted for such a point",
 		"which sampled measurement becomes the exemplar is the SDK reservoir's choice: asserted is that an exposed exemplar is the faithful record of one sampled measurement of that series (right bucket); whether an exemplar is exposed at all is not asserted (the statement does not mention exemplars beyond faithful series)",
 		"an exporter that is not (yet) registered with a MeterProvider may expose a label-less target_info; anything else it exposes is a violation",
+		"a scope attribute whose key only SANITISES to otel_scope_name / otel_scope_version (legacy scheme) is merged with the real value by the general collision rule; the otel_scope_info series is expected with that merged value, the data points with the real one",
 		"concurrent scrapes are checked for crash/race freedom, legal names, cumulative shape and monotone counters; exact values only at quiescence; schedules are sampled, not enumerated",
 	))
 }
